@@ -235,7 +235,7 @@ pub fn run(a: &Args, m: &mut Mon) {
     m.floors(FLOORS);
     canaries(m);
     let mut r = Rng::lane(a.seed, "C19", a.shard, 0);
-    let n = a.n(200_000, 12_000_000);
+    let n = a.n(800_000, 40_000_000);
     let maxlen = if a.thorough() { 65_536 } else { 4096 };
     for k in 0..n {
         let (bytes, class) = gen_input(&mut r, maxlen);
